@@ -23,7 +23,7 @@ RULE = ("operation histories over messages with several oneof groups, checked af
         "0..n members in any order onto a fresh or the existing message, from_dict (instance form: several members in "
         "dict order; class form), copy, deepcopy, pickle round trip. Exhaustive over all histories up to a fixed length "
         "on a fixed 2-group alphabet of the matrix schema + seeded random histories (length 1..12) on matrix and G-schema "
-        "types. distinct = distinct operation-kind sequences (with member identities).")
+        "types. About 40% of the random histories run IN PLACE on a child that lives in a plain field of a holder message (never assigned at first): the selection must also be what the holder's own parse(bytes(holder)) shows. Message members are set to a fresh Sub() as well as to a received empty one. distinct = distinct operation-kind sequences (with member identities).")
 ASSUMPTIONS = [
     "model choices confirmed against the tree by probes: several members of one group in constructor kwargs -> the declaration-last one; "
     "instance from_dict -> dict order decides; parse -> last member on the wire wins",
